@@ -917,6 +917,8 @@ def check():
         # constant tags only if they are equal (lemmas shared with C07)
         # the digest of a node is the cache key of evaluated declarations: it must tell the nodes of two modules apart
         c09.digest_lemmas(o, app_structural)
+        # what cycles_check lets through unmarked, the evaluator inlines without bound (lemmas shared with C09)
+        c09.cycles_lemmas(o, Lg, Lg.smt, M, E, M.one(r"^(typecheck::)?cycles_check$"), app_structural, lambda name, model: app_bad.append(name))
         # Uri::append unwraps the last segment of its left operand: both operands keep all their segments but the one
         # trailing empty one (lemma shared with C02)
         import props.c02 as c02
@@ -1149,6 +1151,17 @@ def emitter_lemmas(o, M, MO, extra_bad=()):
         if crashed(r):
             loc = panic_location(r["out"])
             crashes.append("%s: exit %s%s" % (name, r["rc"], (" (panicked at %s:%s)" % loc) if loc else ""))
+    # every cyclic program C09 knows, whatever its verdict (a cycle that must be rejected and is not ends in a stack overflow)
+    try:
+        import props.c09 as c09p
+        for name, (files9, want9, chk9) in c09p.PROGRAMS.items():
+            r = run_cli(cli, files9, workdir=os.path.join(rdir, "cyclic-" + name), timeout=30)
+            nrej += 1
+            if crashed(r):
+                loc = panic_location(r["out"])
+                crashes.append("cyclic-%s: exit %s%s" % (name, r["rc"], (" (panicked at %s:%s)" % loc) if loc else ""))
+    except Exception:
+        pass
     o.extra["edge_programs_run"] = nrej
     with open(os.path.join(rdir, "cmd"), "w") as f:
         f.write("#!/bin/sh\n# each sub-directory holds one program; re-run: oal-cli -m main.oal -t out.yaml\ncd /verif && for d in %s/*/; do ./check C01 --replay $d; done\n" % rdir)
